@@ -61,6 +61,7 @@ struct F {
     t: Field,
     u: Field,
     body: Field,
+    fr: Field,
     k: Field,
 }
 
@@ -70,6 +71,10 @@ fn schema(ty: &str) -> (Schema, F) {
     let t = sb.add_text_field("t", STRING | STORED);
     let u = sb.add_text_field("u", STRING);
     let body = sb.add_text_field("body", TEXT);
+    // the same text indexed with frequencies but without positions: the three recorders of the indexer are
+    // DocIdRecorder (t, u: Basic), TermFrequencyRecorder (fr: WithFreqs), TfAndPositionRecorder (body: positions)
+    let fr = sb.add_text_field("fr", TextOptions::default().set_indexing_options(
+        TextFieldIndexing::default().set_tokenizer("default").set_index_option(IndexRecordOption::WithFreqs)));
     let k = match ty {
         "i64" => sb.add_i64_field("k", STORED | FAST | INDEXED),
         "u64" => sb.add_u64_field("k", STORED | FAST),
@@ -80,7 +85,7 @@ fn schema(ty: &str) -> (Schema, F) {
         _ => panic!("unknown key type {ty}"),
     };
     let js = sb.add_json_field("js", TEXT);
-    (sb.build(), F { js, id, t, u, body, k })
+    (sb.build(), F { js, id, t, u, body, fr, k })
 }
 
 fn errclass(e: &tantivy::TantivyError) -> String {
@@ -184,6 +189,7 @@ impl Run {
         d.add_text(self.f.t, t);
         d.add_text(self.f.u, format!("u{id}"));
         d.add_text(self.f.body, body_of(id).2);
+        d.add_text(self.f.fr, body_of(id).2);
         // (k2 >= 0: a second value for the sort field - the column of the segment becomes multi-valued)
         for k in [k, k2] {
             if k < 0 {
@@ -339,11 +345,13 @@ impl Run {
                 }
                 let typ = entry.field_type().value_type();
                 let has_pos = entry.field_type().get_index_record_option().map(|o| o.has_positions()).unwrap_or(false);
+                // a field with frequencies but no positions: the frequency is logged in the place of the positions
+                let freq_only = entry.field_type().get_index_record_option().map(|o| o.has_freq() && !o.has_positions()).unwrap_or(false) && typ == Type::Str;
                 let inv = sr.inverted_index(field).map_err(|e| format!("inv {}: {}", entry.name(), errclass(&e)))?;
                 let mut st = inv.terms().stream().map_err(|e| format!("stream {}: {e}", entry.name()))?;
                 while st.advance() {
                     let (term, with_pos) = render_term(entry.name(), typ, st.key(), has_pos)?;
-                    let opt = if with_pos { IndexRecordOption::WithFreqsAndPositions } else { IndexRecordOption::Basic };
+                    let opt = if with_pos { IndexRecordOption::WithFreqsAndPositions } else if freq_only { IndexRecordOption::WithFreqs } else { IndexRecordOption::Basic };
                     let mut p = inv.read_postings_from_terminfo(st.value(), opt).map_err(|e| format!("postings of {term}: {e}"))?;
                     let mut hits = vec![];
                     let mut posbuf: Vec<u32> = vec![];
@@ -355,6 +363,8 @@ impl Run {
                             posbuf.clear();
                             if with_pos {
                                 p.positions(&mut posbuf);
+                            } else if freq_only {
+                                posbuf.push(p.term_freq());
                             }
                             let ids: Vec<u64> = idcol.values_for_doc(d).collect();
                             hits.push(json!([ids.first().map(|x| *x as i64).unwrap_or(-1), posbuf]));
